@@ -398,9 +398,17 @@ func sortRules(l []*nsxRule, m map[string]*nsxGroup) {
 	elementCmp := func(ei, ej string) int {
 		gi := getGroup(ei, m)
 		gj := getGroup(ej, m)
+		// A group on device is empty, if a previous run was interrupted
+		// after removing addresses and before adding new ones.
+		first := func(g *nsxGroup) string {
+			if l := g.Expression[0].IPAddresses; len(l) > 0 {
+				return l[0]
+			}
+			return ""
+		}
 		if gi != nil {
 			if gj != nil {
-				return cmp.Compare(gi.Expression[0].IPAddresses[0], gj.Expression[0].IPAddresses[0])
+				return cmp.Compare(first(gi), first(gj))
 			}
 			return -1
 		}
